@@ -64,9 +64,9 @@ that does not exist is `NoSuchBucket`, not `NoSuchKey`; 0f31b61 delete_objects o
 0096ef4 complete_multipart_upload validates the part list and the part files before it changes anything: a failed complete leaves the upload in place, a part that was never uploaded is `InvalidPart`;
 4609ab3 operations on an upload that does not exist answer `NoSuchUpload`;
 205d9a8 upload_part and upload_part_copy refuse a part number outside 1..10000;
-814bd03 upload_part_copy refuses a copy source range that is not `bytes=first-last` inside the source;
+18203b6 upload_part_copy refuses a copy source range that is not `bytes=first-last` inside the source;
 47e9b00 complete_multipart_upload replaces the metadata and the checksum record of the object it replaces;
-9bdb75f complete_multipart_upload into a bucket that no longer exists is `NoSuchBucket` and does not recreate the bucket;
+b29f222 complete_multipart_upload into a bucket that no longer exists is `NoSuchBucket` and does not recreate the bucket;
 8faafe7 copy_object gives the destination the metadata and the checksum record of the source, or none;
 c55c267 delete_objects reports every requested key as deleted and accepts a key named twice;
 764f144 list_parts returns the parts in ascending part-number order;
